@@ -1273,3 +1273,761 @@ theorem enc_iff_spec (src dst : Fin m → Fin n) (d : Fin n → Fin k) (ro : Fin
 end C05
 
 #print axioms C05.enc_iff_spec
+
+/-
+C07 — lemma over the emission contract of `_division_connected_variable_groups` (cspuz/graph.py).
+
+Schema posted by the function (contracts/c07_emission.py):
+  group_id(v), rank(v) in [0, n-1], is_root(v), active(e);
+  is_root(v) <-> rank(v) = 0;   is_root(v) -> group_id(v) = v;
+  for every edge e:   active(e) -> rank(src e) ≠ rank(dst e),   active(e) -> group_id(src e) = group_id(dst e);
+  for every vertex i: #{e at i : active(e) and rank(other end) < rank(i)} = (0 if is_root(i) else 1);
+  with group sizes:   down(v), total(v) in [1, n], down <= total, is_root(v) -> down(v) = total(v),
+                      for every vertex i: (sum of down(other end) over the active edges at i leading to a larger rank) + 1 = down(i),
+                      total(v) = size(v) where a size is given, active(e) -> total(src e) = total(dst e).
+Theorem: a partition of the vertices (an equivalence P) is realised by group ids (equal ids exactly inside a block) under
+these constraints exactly when every block induces a connected subgraph and every vertex with a given size lies in a block
+of exactly that size.
+-/
+namespace C07
+
+open C04T (adjE)
+
+attribute [local instance] Classical.propDecidable
+
+variable {n m : ℕ}
+
+structure Aux (n m : ℕ) where
+  gid : Fin n → ℕ
+  rank : Fin n → ℕ
+  isRoot : Fin n → Prop
+  act : Fin m → Prop
+  down : Fin n → ℕ
+  total : Fin n → ℕ
+
+/-- active edges at i leading to a smaller / larger rank -/
+noncomputable def lowA (src dst : Fin m → Fin n) (act : Fin m → Prop) (rank : Fin n → ℕ) (i : Fin n) : Finset (Fin m) :=
+  univ.filter (fun e => (src e = i ∨ dst e = i) ∧ act e ∧ rank (C09.other src dst e i) < rank i)
+
+noncomputable def upA (src dst : Fin m → Fin n) (act : Fin m → Prop) (rank : Fin n → ℕ) (i : Fin n) : Finset (Fin m) :=
+  univ.filter (fun e => (src e = i ∨ dst e = i) ∧ act e ∧ rank i < rank (C09.other src dst e i))
+
+def Base (src dst : Fin m → Fin n) (a : Aux n m) : Prop :=
+  (∀ v, a.gid v < n ∧ a.rank v < n) ∧ (∀ i, a.isRoot i ↔ a.rank i = 0) ∧ (∀ i, a.isRoot i → a.gid i = i.val) ∧
+  (∀ e, a.act e → a.rank (src e) ≠ a.rank (dst e)) ∧
+  (∀ i, (lowA src dst a.act a.rank i).card = if a.isRoot i then 0 else 1) ∧
+  (∀ e, a.act e → a.gid (src e) = a.gid (dst e))
+
+def Sized (src dst : Fin m → Fin n) (size : Fin n → Option ℕ) (a : Aux n m) : Prop :=
+  (∀ i, 1 ≤ a.down i ∧ a.down i ≤ n ∧ 1 ≤ a.total i ∧ a.total i ≤ n ∧ a.down i ≤ a.total i) ∧
+  (∀ i, a.isRoot i → a.down i = a.total i) ∧
+  (∀ i, (∑ e ∈ upA src dst a.act a.rank i, a.down (C09.other src dst e i)) + 1 = a.down i) ∧
+  (∀ i s, size i = some s → a.total i = s) ∧
+  (∀ e, a.act e → a.total (src e) = a.total (dst e))
+
+/-- the group ids realise the partition -/
+def Realizes (a : Aux n m) (P : Fin n → Fin n → Prop) : Prop := ∀ u v, a.gid u = a.gid v ↔ P u v
+
+def BlocksConnected (src dst : Fin m → Fin n) (P : Fin n → Fin n → Prop) : Prop :=
+  ∀ u v, P u v → C04.Reach (adjE src dst) (fun w => P u w) u v
+
+def SizesOK (size : Fin n → Option ℕ) (P : Fin n → Fin n → Prop) : Prop :=
+  ∀ v s, size v = some s → (univ.filter (fun w => P v w)).card = s
+
+theorem reach_congr (adj : Fin n → Fin n → Prop) (A B : Fin n → Prop) (h : ∀ w, A w → B w) {x y : Fin n}
+    (hr : C04.Reach adj A x y) : C04.Reach adj B x y := by
+  induction hr with
+  | refl => exact Relation.ReflTransGen.refl
+  | tail _ hbc ih => exact Relation.ReflTransGen.tail ih ⟨hbc.1, h _ hbc.2.1, h _ hbc.2.2⟩
+
+/-- every vertex is joined to a root along active edges; whatever is constant along active edges has the same value at
+    the root -/
+theorem root_of (src dst : Fin m → Fin n) (a : Aux n m) (hB : Base src dst a) :
+    ∀ t i, a.rank i = t → ∃ r, a.isRoot r ∧ C04.Reach (adjE src dst) (fun w => a.gid w = a.gid i) i r ∧
+      ∀ f : Fin n → ℕ, (∀ e, a.act e → f (src e) = f (dst e)) → f r = f i := by
+  obtain ⟨_, _, _, _, hcnt, hgid⟩ := hB
+  intro t
+  induction t using Nat.strong_induction_on with
+  | _ t ih =>
+    intro i ht
+    by_cases hr : a.isRoot i
+    · exact ⟨i, hr, Relation.ReflTransGen.refl, fun _ _ => rfl⟩
+    · have hc := hcnt i
+      rw [if_neg hr] at hc
+      obtain ⟨e, he⟩ := card_pos.mp (by omega : 0 < (lowA src dst a.act a.rank i).card)
+      simp only [lowA, mem_filter, mem_univ, true_and] at he
+      obtain ⟨hat, hact, hlt⟩ := he
+      have hconst : ∀ f : Fin n → ℕ, (∀ e, a.act e → f (src e) = f (dst e)) → f (C09.other src dst e i) = f i := by
+        intro f hf
+        have := hf e hact
+        rcases C05.ends src dst e i hat with ⟨h1, h2⟩ | ⟨h1, h2⟩
+        · rw [← h2, ← this, h1]
+        · rw [← h2, this, h1]
+      have hdj := hconst a.gid hgid
+      obtain ⟨r, hr1, hr2, hr3⟩ := ih (a.rank (C09.other src dst e i)) (by omega) (C09.other src dst e i) rfl
+      rw [hdj] at hr2
+      refine ⟨r, hr1, Relation.ReflTransGen.head ⟨C04T.adj_other src dst e i hat, rfl, hdj⟩ hr2, ?_⟩
+      intro f hf
+      rw [hr3 f hf, hconst f hf]
+
+theorem base_connected (src dst : Fin m → Fin n) (a : Aux n m) (P : Fin n → Fin n → Prop) (hB : Base src dst a)
+    (hR : Realizes a P) : BlocksConnected src dst P := by
+  intro u v huv
+  obtain ⟨ru, hru1, hru2, hru3⟩ := root_of src dst a hB _ u rfl
+  obtain ⟨rv, hrv1, hrv2, hrv3⟩ := root_of src dst a hB _ v rfl
+  have hguv : a.gid u = a.gid v := (hR u v).mpr huv
+  have hg1 := hru3 a.gid hB.2.2.2.2.2
+  have hg2 := hrv3 a.gid hB.2.2.2.2.2
+  have h1 := hB.2.2.1 ru hru1
+  have h2 := hB.2.2.1 rv hrv1
+  have : ru = rv := Fin.ext (by omega)
+  subst this
+  rw [← hguv] at hrv2
+  have hsub : ∀ w, a.gid w = a.gid u → P u w := fun w hw => (hR u w).mp hw.symm
+  have r1 := reach_congr (adjE src dst) _ (fun w => P u w) hsub hru2
+  have r2 := reach_congr (adjE src dst) _ (fun w => P u w) hsub hrv2
+  exact Relation.ReflTransGen.trans r1 (C04.reach_symm (adjE src dst) _ (C04T.adjE_symm src dst) r2)
+
+/-- the end points of an edge by rank -/
+def hi (src dst : Fin m → Fin n) (rank : Fin n → ℕ) (e : Fin m) : Fin n :=
+  if rank (src e) < rank (dst e) then dst e else src e
+
+def lo (src dst : Fin m → Fin n) (rank : Fin n → ℕ) (e : Fin m) : Fin n :=
+  if rank (src e) < rank (dst e) then src e else dst e
+
+theorem lo_eq_iff (src dst : Fin m → Fin n) (rank : Fin n → ℕ) (e : Fin m) (i : Fin n)
+    (hne : rank (src e) ≠ rank (dst e)) :
+    lo src dst rank e = i ↔ (src e = i ∨ dst e = i) ∧ rank i < rank (C09.other src dst e i) := by
+  unfold lo C09.other
+  constructor
+  · intro h
+    by_cases hlt : rank (src e) < rank (dst e)
+    · rw [if_pos hlt] at h
+      refine ⟨Or.inl h, ?_⟩
+      rw [if_pos h, ← h]; exact hlt
+    · rw [if_neg hlt] at h
+      refine ⟨Or.inr h, ?_⟩
+      have hsi : ¬ src e = i := by
+        intro hs
+        rw [hs, ← h] at hne
+        exact hne rfl
+      rw [if_neg hsi, ← h]; omega
+  · rintro ⟨hat, hlt⟩
+    by_cases hsi : src e = i
+    · rw [if_pos hsi] at hlt
+      rw [← hsi] at hlt
+      rw [if_pos hlt]; exact hsi
+    · rw [if_neg hsi] at hlt
+      rcases hat with h | h
+      · exact absurd h hsi
+      · have : ¬ rank (src e) < rank (dst e) := by rw [h]; omega
+        rw [if_neg this]; exact h
+
+theorem hi_eq_iff (src dst : Fin m → Fin n) (rank : Fin n → ℕ) (e : Fin m) (i : Fin n)
+    (hne : rank (src e) ≠ rank (dst e)) :
+    hi src dst rank e = i ↔ (src e = i ∨ dst e = i) ∧ rank (C09.other src dst e i) < rank i := by
+  unfold hi C09.other
+  constructor
+  · intro h
+    by_cases hlt : rank (src e) < rank (dst e)
+    · rw [if_pos hlt] at h
+      refine ⟨Or.inr h, ?_⟩
+      have hsi : ¬ src e = i := by
+        intro hs
+        rw [hs, ← h] at hne
+        exact hne rfl
+      rw [if_neg hsi, ← h]; exact hlt
+    · rw [if_neg hlt] at h
+      refine ⟨Or.inl h, ?_⟩
+      rw [if_pos h, ← h]; omega
+  · rintro ⟨hat, hlt⟩
+    by_cases hsi : src e = i
+    · rw [if_pos hsi] at hlt
+      rw [← hsi] at hlt
+      have : ¬ rank (src e) < rank (dst e) := by omega
+      rw [if_neg this]; exact hsi
+    · rw [if_neg hsi] at hlt
+      rcases hat with h | h
+      · exact absurd h hsi
+      · rw [← h] at hlt
+        rw [if_pos hlt]; exact h
+
+theorem other_lo (src dst : Fin m → Fin n) (rank : Fin n → ℕ) (e : Fin m) :
+    C09.other src dst e (lo src dst rank e) = hi src dst rank e ∨ src e = dst e := by
+  unfold lo hi C09.other
+  by_cases hlt : rank (src e) < rank (dst e)
+  · left; simp [hlt]
+  · by_cases hsd : src e = dst e
+    · right; exact hsd
+    · left
+      simp only [hlt, if_false]
+      rw [if_neg hsd]
+
+/-- double counting over a set of vertices closed under active edges with a single root: the root's `down` value is the
+    number of vertices -/
+theorem count_tree (src dst : Fin m → Fin n) (a : Aux n m) (hB : Base src dst a)
+    (hS3 : ∀ i, (∑ e ∈ upA src dst a.act a.rank i, a.down (C09.other src dst e i)) + 1 = a.down i)
+    (T : Finset (Fin n)) (r : Fin n) (hr : r ∈ T) (hroot : a.isRoot r) (huniq : ∀ i ∈ T, a.isRoot i → i = r)
+    (hclosed : ∀ e, a.act e → (src e ∈ T ↔ dst e ∈ T)) : a.down r = T.card := by
+  obtain ⟨_, _, _, hne, hcnt, _⟩ := hB
+  let AT : Finset (Fin m) := univ.filter (fun e => a.act e ∧ src e ∈ T)
+  have hAT : ∀ e, e ∈ AT ↔ a.act e ∧ src e ∈ T := by intro e; simp [AT]
+  -- (1)
+  have h1 : ∑ i ∈ T, a.down i = T.card + ∑ i ∈ T, ∑ e ∈ upA src dst a.act a.rank i, a.down (C09.other src dst e i) := by
+    rw [← sum_congr rfl (fun i _ => hS3 i), sum_add_distrib]
+    simp; ring
+  -- (2)
+  have hlo : ∀ e ∈ AT, lo src dst a.rank e ∈ T := by
+    intro e he
+    obtain ⟨hact, hs⟩ := (hAT e).mp he
+    unfold lo
+    split_ifs
+    · exact hs
+    · exact (hclosed e hact).mp hs
+  have h2 : ∑ i ∈ T, ∑ e ∈ upA src dst a.act a.rank i, a.down (C09.other src dst e i) =
+      ∑ e ∈ AT, a.down (hi src dst a.rank e) := by
+    rw [← sum_fiberwise_of_maps_to hlo]
+    apply sum_congr rfl
+    intro i hi'
+    have hset : AT.filter (fun e => lo src dst a.rank e = i) = upA src dst a.act a.rank i := by
+      ext e
+      simp only [mem_filter, hAT, upA, mem_univ, true_and]
+      constructor
+      · rintro ⟨⟨hact, _⟩, hl⟩
+        obtain ⟨hat, hlt⟩ := (lo_eq_iff src dst a.rank e i (hne e hact)).mp hl
+        exact ⟨hat, hact, hlt⟩
+      · rintro ⟨hat, hact, hlt⟩
+        refine ⟨⟨hact, ?_⟩, (lo_eq_iff src dst a.rank e i (hne e hact)).mpr ⟨hat, hlt⟩⟩
+        rcases hat with h | h
+        · rw [h]; exact hi'
+        · exact (hclosed e hact).mpr (h ▸ hi')
+    rw [hset]
+    apply sum_congr rfl
+    intro e he
+    simp only [upA, mem_filter, mem_univ, true_and] at he
+    obtain ⟨hat, hact, hlt⟩ := he
+    have hl := (lo_eq_iff src dst a.rank e i (hne e hact)).mpr ⟨hat, hlt⟩
+    rcases other_lo src dst a.rank e with h | h
+    · rw [← h, hl]
+    · exact absurd (congrArg a.rank h) (hne e hact)
+  -- (3)
+  have hhi : ∀ e ∈ AT, hi src dst a.rank e ∈ T := by
+    intro e he
+    obtain ⟨hact, hs⟩ := (hAT e).mp he
+    unfold hi
+    split_ifs
+    · exact (hclosed e hact).mp hs
+    · exact hs
+  have h3 : ∑ e ∈ AT, a.down (hi src dst a.rank e) = ∑ c ∈ T, (if a.isRoot c then 0 else a.down c) := by
+    rw [← sum_fiberwise_of_maps_to hhi]
+    apply sum_congr rfl
+    intro c hc
+    have hset : AT.filter (fun e => hi src dst a.rank e = c) = lowA src dst a.act a.rank c := by
+      ext e
+      simp only [mem_filter, hAT, lowA, mem_univ, true_and]
+      constructor
+      · rintro ⟨⟨hact, _⟩, hh⟩
+        obtain ⟨hat, hlt⟩ := (hi_eq_iff src dst a.rank e c (hne e hact)).mp hh
+        exact ⟨hat, hact, hlt⟩
+      · rintro ⟨hat, hact, hlt⟩
+        refine ⟨⟨hact, ?_⟩, (hi_eq_iff src dst a.rank e c (hne e hact)).mpr ⟨hat, hlt⟩⟩
+        rcases hat with h | h
+        · rw [h]; exact hc
+        · exact (hclosed e hact).mpr (h ▸ hc)
+    rw [hset]
+    have hconst : ∀ e ∈ lowA src dst a.act a.rank c, a.down (hi src dst a.rank e) = a.down c := by
+      intro e he
+      simp only [lowA, mem_filter, mem_univ, true_and] at he
+      obtain ⟨hat, hact, hlt⟩ := he
+      rw [(hi_eq_iff src dst a.rank e c (hne e hact)).mpr ⟨hat, hlt⟩]
+    rw [sum_congr rfl hconst, sum_const, hcnt c]
+    split_ifs <;> simp
+  -- (4), (5)
+  have h4 : ∑ c ∈ T, (if a.isRoot c then 0 else a.down c) = ∑ c ∈ T.erase r, a.down c := by
+    rw [← add_sum_erase T _ hr, if_pos hroot, zero_add]
+    apply sum_congr rfl
+    intro c hc
+    have hcr : c ≠ r := (mem_erase.mp hc).1
+    have hcT : c ∈ T := (mem_erase.mp hc).2
+    have : ¬ a.isRoot c := fun h => hcr (huniq c hcT h)
+    rw [if_neg this]
+  have h5 : ∑ i ∈ T, a.down i = a.down r + ∑ c ∈ T.erase r, a.down c := (add_sum_erase T _ hr).symm
+  omega
+
+theorem sized_sizes (src dst : Fin m → Fin n) (size : Fin n → Option ℕ) (a : Aux n m) (P : Fin n → Fin n → Prop)
+    (hB : Base src dst a) (hS : Sized src dst size a) (hR : Realizes a P) : SizesOK size P := by
+  intro v s hvs
+  obtain ⟨_, hS2, hS3, hS4, hS5⟩ := hS
+  obtain ⟨r, hr1, _, hr3⟩ := root_of src dst a hB _ v rfl
+  have hgr : a.gid r = a.gid v := hr3 a.gid hB.2.2.2.2.2
+  have htr : a.total r = a.total v := hr3 a.total hS5
+  let T : Finset (Fin n) := univ.filter (fun w => P v w)
+  have hT : ∀ w, w ∈ T ↔ a.gid v = a.gid w := by
+    intro w
+    simp only [T, mem_filter, mem_univ, true_and]
+    exact (hR v w).symm
+  have hrT : r ∈ T := (hT r).mpr hgr.symm
+  have huniq : ∀ i ∈ T, a.isRoot i → i = r := by
+    intro i hi hiroot
+    have h1 := hB.2.2.1 i hiroot
+    have h2 := hB.2.2.1 r hr1
+    have h3 := (hT i).mp hi
+    exact Fin.ext (by omega)
+  have hclosed : ∀ e, a.act e → (src e ∈ T ↔ dst e ∈ T) := by
+    intro e he
+    have := hB.2.2.2.2.2 e he
+    rw [hT, hT, this]
+  have hcount := count_tree src dst a hB hS3 T r hrT hr1 huniq hclosed
+  have := hS2 r hr1
+  have h4 := hS4 v s hvs
+  show T.card = s
+  omega
+
+/-- in a ranked set the root may be given rank 0 -/
+theorem good_root0 (adj : Fin n → Fin n → Prop) (act : Fin n → Prop) (r : Fin n) (X : Finset (Fin n)) (rank : Fin n → ℕ)
+    (h : C04.Good adj act r X rank) : C04.Good adj act r X (fun v => if v = r then 0 else rank v) := by
+  obtain ⟨h1, h2, h3, h4⟩ := h
+  refine ⟨h1, h2, ?_, ?_⟩
+  · intro x hx
+    have := h3 x hx
+    simp only
+    split_ifs <;> omega
+  · intro x hx hxr
+    obtain ⟨y, hy, hadj, hlt⟩ := h4 x hx hxr
+    refine ⟨y, hy, hadj, ?_⟩
+    simp only [hxr, if_false]
+    split_ifs <;> omega
+
+/-- a connected set of vertices with a chosen root: ranks (root 0, others positive) and tree edges such that every other
+    member has exactly one tree edge to a smaller rank -/
+theorem tree_data (src dst : Fin m → Fin n) (A : Fin n → Prop) (hconn : C04.Connected (adjE src dst) A) (r : Fin n)
+    (hr : A r) :
+    ∃ (rk : Fin n → ℕ) (F : Fin m → Prop),
+      rk r = 0 ∧ (∀ v, A v → rk v < n) ∧ (∀ v, A v → v ≠ r → 1 ≤ rk v) ∧
+      (∀ e, F e → A (src e) ∧ A (dst e) ∧ rk (src e) ≠ rk (dst e)) ∧
+      (∀ i, A i → (lowA src dst F rk i).card = if i = r then 0 else 1) := by
+  have hG0 : C04.Good (adjE src dst) A r {r} (fun _ => 0) := by
+    refine ⟨mem_singleton_self r, ?_, ?_, ?_⟩
+    · intro x hx; rw [mem_singleton.mp hx]; exact hr
+    · intro x _; simp
+    · intro x hx hxr; exact absurd (mem_singleton.mp hx) hxr
+  obtain ⟨X, rank0, hG', hall⟩ := C04.grow (adjE src dst) A (C04T.adjE_symm src dst) hconn r hr _ {r} (fun _ => 0) rfl hG0
+  have hG := good_root0 (adjE src dst) A r X rank0 hG'
+  generalize hrank : (fun v => if v = r then 0 else rank0 v) = rank at hG
+  have hr0 : rank r = 0 := by rw [← hrank]; simp
+  have hXn : X.card ≤ n := by
+    have := card_le_univ X
+    simpa using this
+  have hpar : ∀ x, ∃ o : Option (Fin m), (A x ∧ x ≠ r) →
+      ∃ e, o = some e ∧ (src e = x ∨ dst e = x) ∧ A (C09.other src dst e x) ∧
+        rank (C09.other src dst e x) < rank x := by
+    intro x
+    by_cases h : A x ∧ x ≠ r
+    · obtain ⟨y, hy, ⟨e, he⟩, hlt⟩ := hG.2.2.2 x (hall x h.1) h.2
+      have hyl : A y := hG.2.1 y hy
+      have hat : src e = x ∨ dst e = x := by
+        rcases he with he | he
+        · exact Or.inl he.1
+        · exact Or.inr he.2
+      have hoth : C09.other src dst e x = y := by
+        unfold C09.other
+        rcases he with he | he
+        · rw [if_pos he.1]; exact he.2
+        · by_cases hsx : src e = x
+          · rw [if_pos hsx, he.2, ← hsx, he.1]
+          · rw [if_neg hsx]; exact he.1
+      exact ⟨some e, fun _ => ⟨e, rfl, hat, by rw [hoth]; exact hyl, by rw [hoth]; exact hlt⟩⟩
+    · exact ⟨none, fun h' => absurd h' h⟩
+  choose par hpar2 using hpar
+  refine ⟨rank, fun e => ∃ x, A x ∧ x ≠ r ∧ par x = some e, hr0, ?_, ?_, ?_, ?_⟩
+  · intro v hv
+    have := hG.2.2.1 v (hall v hv)
+    omega
+  · intro v hv hvr
+    obtain ⟨y, _, _, hlt⟩ := hG.2.2.2 v (hall v hv) hvr
+    omega
+  · rintro e ⟨x, hxl, hxr, hpx⟩
+    obtain ⟨e', he', hat, hol, hlt⟩ := hpar2 x ⟨hxl, hxr⟩
+    have : e' = e := by rw [hpx] at he'; exact (Option.some.inj he').symm
+    subst this
+    rcases C05.ends src dst e' x hat with ⟨h1, h2⟩ | ⟨h1, h2⟩
+    · refine ⟨h1 ▸ hxl, h2 ▸ hol, ?_⟩
+      rw [h1, h2]; omega
+    · refine ⟨h2 ▸ hol, h1 ▸ hxl, ?_⟩
+      rw [h1, h2]; omega
+  · intro i hil
+    by_cases hir : i = r
+    · rw [if_pos hir]
+      rw [card_eq_zero]
+      ext e
+      simp only [lowA, mem_filter, mem_univ, true_and, notMem_empty, iff_false]
+      rintro ⟨hat, ⟨x, hxl, hxr, hpx⟩, hlt⟩
+      obtain ⟨e', he', hat', _, hlt'⟩ := hpar2 x ⟨hxl, hxr⟩
+      have : e' = e := by rw [hpx] at he'; exact (Option.some.inj he').symm
+      subst this
+      have := C05.hi_unique src dst rank e' x i hat' hat hlt' hlt
+      exact hxr (this.trans hir)
+    · rw [if_neg hir]
+      obtain ⟨e0, he0, hat0, _, hlt0⟩ := hpar2 i ⟨hil, hir⟩
+      rw [card_eq_one]
+      refine ⟨e0, ?_⟩
+      ext e
+      simp only [lowA, mem_filter, mem_univ, true_and, mem_singleton]
+      constructor
+      · rintro ⟨hat, ⟨x, hxl, hxr, hpx⟩, hlt⟩
+        obtain ⟨e', he', hat', _, hlt'⟩ := hpar2 x ⟨hxl, hxr⟩
+        have : e' = e := by rw [hpx] at he'; exact (Option.some.inj he').symm
+        subst this
+        have hxi := C05.hi_unique src dst rank e' x i hat' hat hlt' hlt
+        subst hxi
+        rw [he0] at hpx
+        exact (Option.some.inj hpx).symm
+      · intro he
+        subst he
+        exact ⟨hat0, ⟨i, hil, hir, he0⟩, hlt0⟩
+
+/-- sizes of the subtrees, by recursion with fuel: one more than the sum over the children -/
+noncomputable def D (src dst : Fin m → Fin n) (act : Fin m → Prop) (rank : Fin n → ℕ) : ℕ → Fin n → ℕ
+  | 0, _ => 1
+  | k + 1, i => (∑ e ∈ upA src dst act rank i, D src dst act rank k (C09.other src dst e i)) + 1
+
+theorem D_stable (src dst : Fin m → Fin n) (act : Fin m → Prop) (rank : Fin n → ℕ) (hlt : ∀ v, rank v < n) :
+    ∀ k i, n ≤ k + rank i → D src dst act rank (k + 1) i = D src dst act rank k i := by
+  intro k
+  induction k with
+  | zero => intro i h; have := hlt i; omega
+  | succ k ih =>
+    intro i h
+    show (∑ e ∈ upA src dst act rank i, D src dst act rank (k + 1) (C09.other src dst e i)) + 1 =
+      (∑ e ∈ upA src dst act rank i, D src dst act rank k (C09.other src dst e i)) + 1
+    congr 1
+    apply sum_congr rfl
+    intro e he
+    simp only [upA, mem_filter, mem_univ, true_and] at he
+    exact ih _ (by omega)
+
+theorem D_rec (src dst : Fin m → Fin n) (act : Fin m → Prop) (rank : Fin n → ℕ) (hlt : ∀ v, rank v < n) (i : Fin n) :
+    (∑ e ∈ upA src dst act rank i, D src dst act rank n (C09.other src dst e i)) + 1 = D src dst act rank n i := by
+  have := D_stable src dst act rank hlt n i (by omega)
+  rw [← this]
+  rfl
+
+theorem other_other (src dst : Fin m → Fin n) (e : Fin m) (i : Fin n) (hat : src e = i ∨ dst e = i) :
+    C09.other src dst e (C09.other src dst e i) = i := by
+  unfold C09.other
+  by_cases h1 : src e = i
+  · rw [if_pos h1]
+    by_cases h2 : src e = dst e
+    · rw [if_pos h2, ← h2, h1]
+    · rw [if_neg h2, h1]
+  · rw [if_neg h1, if_pos rfl]
+    rcases hat with h | h
+    · exact absurd h h1
+    · exact h
+
+/-- the `down` value of a vertex is at most that of the root it leads to -/
+theorem down_le_root (src dst : Fin m → Fin n) (a : Aux n m) (hB : Base src dst a)
+    (hS3 : ∀ i, (∑ e ∈ upA src dst a.act a.rank i, a.down (C09.other src dst e i)) + 1 = a.down i) :
+    ∀ t i, a.rank i = t → ∃ r, a.isRoot r ∧ a.gid r = a.gid i ∧ a.down i ≤ a.down r := by
+  obtain ⟨_, _, _, _, hcnt, hgid⟩ := hB
+  intro t
+  induction t using Nat.strong_induction_on with
+  | _ t ih =>
+    intro i ht
+    by_cases hr : a.isRoot i
+    · exact ⟨i, hr, rfl, le_refl _⟩
+    · have hc := hcnt i
+      rw [if_neg hr] at hc
+      obtain ⟨e, he⟩ := card_pos.mp (by omega : 0 < (lowA src dst a.act a.rank i).card)
+      simp only [lowA, mem_filter, mem_univ, true_and] at he
+      obtain ⟨hat, hact, hlt⟩ := he
+      have hdj : a.gid (C09.other src dst e i) = a.gid i := by
+        have := hgid e hact
+        rcases C05.ends src dst e i hat with ⟨h1, h2⟩ | ⟨h1, h2⟩
+        · rw [← h2, ← this, h1]
+        · rw [← h2, this, h1]
+      obtain ⟨r, hr1, hr2, hr3⟩ := ih (a.rank (C09.other src dst e i)) (by omega) (C09.other src dst e i) rfl
+      refine ⟨r, hr1, hr2.trans hdj, le_trans ?_ hr3⟩
+      -- i is a child of the other end j: its value is one of the summands of down j
+      have hoo := other_other src dst e i hat
+      have hatj : src e = C09.other src dst e i ∨ dst e = C09.other src dst e i := by
+        rcases C05.ends src dst e i hat with ⟨_, h2⟩ | ⟨_, h2⟩
+        · exact Or.inr h2
+        · exact Or.inl h2
+      have hmem : e ∈ upA src dst a.act a.rank (C09.other src dst e i) := by
+        simp only [upA, mem_filter, mem_univ, true_and]
+        exact ⟨hatj, hact, by rw [hoo]; exact hlt⟩
+      have hle := single_le_sum (f := fun e' => a.down (C09.other src dst e' (C09.other src dst e i)))
+        (fun _ _ => Nat.zero_le _) hmem
+      simp only [hoo] at hle
+      have := hS3 (C09.other src dst e i)
+      omega
+
+theorem exists_rep (P : Fin n → Fin n → Prop) (hP : Equivalence P) :
+    ∃ rep : Fin n → Fin n, (∀ v, P v (rep v)) ∧ (∀ u v, P u v → rep u = rep v) := by
+  let S : Setoid (Fin n) := ⟨P, hP⟩
+  refine ⟨fun v => Quotient.out (Quotient.mk S v), ?_, ?_⟩
+  · intro v
+    have : S.r (Quotient.out (Quotient.mk S v)) v := Quotient.mk_out v
+    exact hP.symm this
+  · intro u v h
+    have : Quotient.mk S u = Quotient.mk S v := Quotient.sound h
+    simp only [this]
+
+theorem construct (src dst : Fin m → Fin n) (size : Fin n → Option ℕ) (P : Fin n → Fin n → Prop) (hP : Equivalence P)
+    (hconn : BlocksConnected src dst P) (hsize : SizesOK size P) :
+    ∃ a : Aux n m, Base src dst a ∧ Sized src dst size a ∧ Realizes a P := by
+  obtain ⟨rep, hrep1, hrep2⟩ := exists_rep P hP
+  have hreprep : ∀ v, rep (rep v) = rep v := fun v => (hrep2 v (rep v) (hrep1 v)).symm
+  -- a tree for the block of every vertex r
+  have hdata := fun r => tree_data src dst (fun w => P r w)
+    (fun x y hx hy => reach_congr (adjE src dst) _ _ (fun w hw => hP.trans hx hw) (hconn x y (hP.trans (hP.symm hx) hy)))
+    r (hP.refl r)
+  choose RK FF hrk0 hrklt hrkpos hF hcnt using hdata
+  let rank : Fin n → ℕ := fun v => RK (rep v) v
+  let act : Fin m → Prop := fun e => FF (rep (src e)) e
+  have hact_same : ∀ e, act e → rep (dst e) = rep (src e) := by
+    intro e he
+    obtain ⟨h1, h2, _⟩ := hF (rep (src e)) e he
+    have := hrep2 _ _ h2
+    rw [hreprep] at this
+    exact this.symm
+  have hranklt : ∀ v, rank v < n := fun v => hrklt (rep v) v (hP.symm (hrep1 v))
+  let down : Fin n → ℕ := D src dst act rank n
+  let total : Fin n → ℕ := fun v => (univ.filter (fun w => P v w)).card
+  let a : Aux n m := ⟨fun v => (rep v).val, rank, fun v => v = rep v, act, down, total⟩
+  have hlow : ∀ i, lowA src dst act rank i = lowA src dst (FF (rep i)) (RK (rep i)) i := by
+    intro i
+    ext e
+    simp only [lowA, mem_filter, mem_univ, true_and]
+    constructor
+    · rintro ⟨hat, hFe, hlt⟩
+      have hsame := hact_same e hFe
+      have hsi : rep (src e) = rep i := by
+        rcases hat with h | h
+        · rw [h]
+        · rw [← h]; exact hsame.symm
+      have hoi : rep (C09.other src dst e i) = rep i := by
+        rcases C05.ends src dst e i hat with ⟨_, h4⟩ | ⟨_, h4⟩
+        · rw [← h4, hsame, hsi]
+        · rw [← h4, hsi]
+      refine ⟨hat, ?_, ?_⟩
+      · have : FF (rep (src e)) e := hFe
+        rw [hsi] at this; exact this
+      · have : RK (rep (C09.other src dst e i)) (C09.other src dst e i) < RK (rep i) i := hlt
+        rw [hoi] at this; exact this
+    · rintro ⟨hat, hFe, hlt⟩
+      obtain ⟨h1, h2, _⟩ := hF (rep i) e hFe
+      have hs : rep (src e) = rep i := by have := hrep2 _ _ h1; rw [hreprep] at this; exact this.symm
+      have hd : rep (dst e) = rep i := by have := hrep2 _ _ h2; rw [hreprep] at this; exact this.symm
+      have hoi : rep (C09.other src dst e i) = rep i := by
+        rcases C05.ends src dst e i hat with ⟨_, h4⟩ | ⟨_, h4⟩
+        · rw [← h4]; exact hd
+        · rw [← h4]; exact hs
+      refine ⟨hat, ?_, ?_⟩
+      · show FF (rep (src e)) e
+        rw [hs]; exact hFe
+      · show RK (rep (C09.other src dst e i)) (C09.other src dst e i) < RK (rep i) i
+        rw [hoi]; exact hlt
+  have hB : Base src dst a := by
+    refine ⟨fun v => ⟨(rep v).isLt, hranklt v⟩, ?_, fun i hi => ?_, ?_, ?_, ?_⟩
+    · intro i
+      constructor
+      · intro hi
+        show RK (rep i) i = 0
+        have : i = rep i := hi
+        rw [← this]; exact hrk0 i
+      · intro hi
+        by_contra hne
+        have hi0 : RK (rep i) i = 0 := hi
+        have := hrkpos (rep i) i (hP.symm (hrep1 i)) hne
+        omega
+    · have : i = rep i := hi
+      show (rep i).val = i.val
+      rw [← this]
+    · intro e he
+      obtain ⟨_, _, h3⟩ := hF (rep (src e)) e he
+      show RK (rep (src e)) (src e) ≠ RK (rep (dst e)) (dst e)
+      rw [hact_same e he]; exact h3
+    · intro i
+      rw [hlow i, hcnt (rep i) i (hP.symm (hrep1 i))]
+      by_cases hi : i = rep i
+      · have hi' : a.isRoot i := hi
+        rw [if_pos hi, if_pos hi']
+      · have hi' : ¬ a.isRoot i := hi
+        rw [if_neg hi, if_neg hi']
+    · intro e he
+      show (rep (src e)).val = (rep (dst e)).val
+      rw [hact_same e he]
+  have hR : Realizes a P := by
+    intro u v
+    constructor
+    · intro h
+      have : rep u = rep v := Fin.ext h
+      exact hP.trans (hrep1 u) (this ▸ hP.symm (hrep1 v))
+    · intro h
+      show (rep u).val = (rep v).val
+      rw [hrep2 u v h]
+  have hS3 : ∀ i, (∑ e ∈ upA src dst a.act a.rank i, a.down (C09.other src dst e i)) + 1 = a.down i :=
+    fun i => D_rec src dst act rank hranklt i
+  have hblock : ∀ u v, P u v → total u = total v := by
+    intro u v h
+    show (univ.filter (fun w => P u w)).card = (univ.filter (fun w => P v w)).card
+    congr 1
+    ext w
+    simp only [mem_filter, mem_univ, true_and]
+    exact ⟨fun hw => hP.trans (hP.symm h) hw, fun hw => hP.trans h hw⟩
+  have hrootsize : ∀ i, a.isRoot i → a.down i = a.total i := by
+    intro i hi
+    let T : Finset (Fin n) := univ.filter (fun w => P i w)
+    have hT : ∀ w, w ∈ T ↔ P i w := by intro w; simp [T]
+    have huniq : ∀ j ∈ T, a.isRoot j → j = i := by
+      intro j hj hjr
+      have h1 : j = rep j := hjr
+      have h2 : i = rep i := hi
+      rw [h1, h2]
+      exact (hrep2 i j ((hT j).mp hj)).symm
+    have hclosed : ∀ e, a.act e → (src e ∈ T ↔ dst e ∈ T) := by
+      intro e he
+      have hsd : P (src e) (dst e) := by
+        have := hact_same e he
+        exact hP.trans (hrep1 (src e)) (this ▸ hP.symm (hrep1 (dst e)))
+      rw [hT, hT]
+      exact ⟨fun h => hP.trans h hsd, fun h => hP.trans h (hP.symm hsd)⟩
+    exact count_tree src dst a hB hS3 T i ((hT i).mpr (hP.refl i)) hi huniq hclosed
+  refine ⟨a, hB, ⟨?_, hrootsize, hS3, ?_, ?_⟩, hR⟩
+  · intro i
+    have h1 : 1 ≤ a.down i := by have := hS3 i; omega
+    have h2 : 1 ≤ a.total i := by
+      show 1 ≤ (univ.filter (fun w => P i w)).card
+      exact card_pos.mpr ⟨i, mem_filter.mpr ⟨mem_univ i, hP.refl i⟩⟩
+    have h3 : a.total i ≤ n := by
+      have := card_le_univ (univ.filter (fun w => P i w))
+      simpa using this
+    obtain ⟨r, hr1, hr2, hr3⟩ := down_le_root src dst a hB hS3 _ i rfl
+    have h4 : a.down r = a.total r := hrootsize r hr1
+    have h5 : a.total r = a.total i := by
+      apply hblock
+      have : rep r = rep i := Fin.ext hr2
+      exact hP.trans (hrep1 r) (this ▸ hP.symm (hrep1 i))
+    exact ⟨h1, by omega, h2, h3, by omega⟩
+  · intro i s hs
+    exact hsize i s hs
+  · intro e he
+    apply hblock
+    have := hact_same e he
+    exact hP.trans (hrep1 (src e)) (this ▸ hP.symm (hrep1 (dst e)))
+
+/-- with group sizes: the partition P is realised by group ids under the posted constraints exactly when its blocks are
+    connected and every sized vertex lies in a block of that size -/
+theorem enc_iff_sized (src dst : Fin m → Fin n) (size : Fin n → Option ℕ) (P : Fin n → Fin n → Prop) (hP : Equivalence P) :
+    (∃ a : Aux n m, Base src dst a ∧ Sized src dst size a ∧ Realizes a P) ↔ BlocksConnected src dst P ∧ SizesOK size P :=
+  ⟨fun ⟨a, hB, hS, hR⟩ => ⟨base_connected src dst a P hB hR, sized_sizes src dst size a P hB hS hR⟩,
+   fun ⟨h1, h2⟩ => construct src dst size P hP h1 h2⟩
+
+/-- without group sizes (group_size=None: no `down` / `total` variables are created) -/
+theorem enc_iff_plain (src dst : Fin m → Fin n) (P : Fin n → Fin n → Prop) (hP : Equivalence P) :
+    (∃ a : Aux n m, Base src dst a ∧ Realizes a P) ↔ BlocksConnected src dst P :=
+  ⟨fun ⟨a, hB, hR⟩ => base_connected src dst a P hB hR,
+   fun h => by
+     obtain ⟨a, hB, _, hR⟩ := construct src dst (fun _ => none) P hP h (fun v s hs => by cases hs)
+     exact ⟨a, hB, hR⟩⟩
+
+/-! ### the `_with_borders` variant: `is_border[e] == (group_id[src e] != group_id[dst e])` posted on top -/
+
+/-- joined by an edge that is not a border -/
+def adjNB (src dst : Fin m → Fin n) (B : Fin m → Prop) (x y : Fin n) : Prop :=
+  ∃ e, ¬ B e ∧ ((src e = x ∧ dst e = y) ∨ (src e = y ∧ dst e = x))
+
+/-- in the same block after cutting the border edges -/
+def SameBlock (src dst : Fin m → Fin n) (B : Fin m → Prop) (x y : Fin n) : Prop :=
+  C04.Reach (adjNB src dst B) (fun _ => True) x y
+
+theorem adjNB_symm (src dst : Fin m → Fin n) (B : Fin m → Prop) : ∀ x y, adjNB src dst B x y → adjNB src dst B y x := by
+  rintro x y ⟨e, hb, h | h⟩
+  · exact ⟨e, hb, Or.inr h⟩
+  · exact ⟨e, hb, Or.inl h⟩
+
+theorem sameBlock_equiv (src dst : Fin m → Fin n) (B : Fin m → Prop) : Equivalence (SameBlock src dst B) :=
+  ⟨fun _ => Relation.ReflTransGen.refl,
+   fun h => C04.reach_symm (adjNB src dst B) _ (adjNB_symm src dst B) h,
+   fun h1 h2 => Relation.ReflTransGen.trans h1 h2⟩
+
+theorem enc_iff_borders (src dst : Fin m → Fin n) (size : Fin n → Option ℕ) (B : Fin m → Prop) :
+    (∃ a : Aux n m, Base src dst a ∧ Sized src dst size a ∧ ∀ e, B e ↔ a.gid (src e) ≠ a.gid (dst e)) ↔
+    SizesOK size (SameBlock src dst B) ∧ ∀ e, B e → ¬ SameBlock src dst B (src e) (dst e) := by
+  constructor
+  · rintro ⟨a, hB, hS, hbor⟩
+    let P : Fin n → Fin n → Prop := fun u v => a.gid u = a.gid v
+    have hR : Realizes a P := fun u v => Iff.rfl
+    have hc := base_connected src dst a P hB hR
+    have hs := sized_sizes src dst size a P hB hS hR
+    have hQP : ∀ u v, SameBlock src dst B u v → P u v := by
+      intro u v h
+      induction h with
+      | refl => exact rfl
+      | tail _ hbc ih =>
+        obtain ⟨⟨e, hnb, he⟩, _, _⟩ := hbc
+        have hg : a.gid (src e) = a.gid (dst e) := by
+          by_contra hne
+          exact hnb ((hbor e).mpr hne)
+        rcases he with ⟨h1, h2⟩ | ⟨h1, h2⟩
+        · exact ih.trans (by rw [← h1, ← h2]; exact hg)
+        · exact ih.trans (by rw [← h1, ← h2]; exact hg.symm)
+    have hPQ : ∀ u v, P u v → SameBlock src dst B u v := by
+      intro u v h
+      have key : ∀ w, C04.Reach (adjE src dst) (fun x => P u x) u w → SameBlock src dst B u w := by
+        intro w hr
+        induction hr with
+        | refl => exact Relation.ReflTransGen.refl
+        | tail _ hbc ih =>
+          refine Relation.ReflTransGen.tail ih ⟨?_, trivial, trivial⟩
+          obtain ⟨⟨e, he⟩, hx, hy⟩ := hbc
+          have hxy : a.gid _ = a.gid _ := hx.symm.trans hy
+          refine ⟨e, ?_, he⟩
+          intro hb
+          have := (hbor e).mp hb
+          rcases he with ⟨h1, h2⟩ | ⟨h1, h2⟩
+          · rw [h1, h2] at this; exact this hxy
+          · rw [h1, h2] at this; exact this hxy.symm
+      exact key v (hc u v h)
+    refine ⟨?_, ?_⟩
+    · intro v s hvs
+      have := hs v s hvs
+      rw [← this]
+      congr 1
+      ext w
+      simp only [mem_filter, mem_univ, true_and]
+      exact ⟨hQP v w, hPQ v w⟩
+    · intro e hb hq
+      exact (hbor e).mp hb (hQP _ _ hq)
+  · rintro ⟨hs, hb⟩
+    have hP := sameBlock_equiv src dst B
+    have hconn : BlocksConnected src dst (SameBlock src dst B) := by
+      intro u v h
+      have key : ∀ w, SameBlock src dst B u w → C04.Reach (adjE src dst) (fun x => SameBlock src dst B u x) u w := by
+        intro w hw
+        induction hw with
+        | refl => exact Relation.ReflTransGen.refl
+        | tail hab hbc ih =>
+          have hbc' := hbc
+          obtain ⟨⟨e, _, he⟩, _, _⟩ := hbc
+          exact Relation.ReflTransGen.tail ih ⟨⟨e, he⟩, hab, Relation.ReflTransGen.tail hab hbc'⟩
+      exact key v h
+    obtain ⟨a, hB, hS, hR⟩ := construct src dst size _ hP hconn hs
+    refine ⟨a, hB, hS, ?_⟩
+    intro e
+    constructor
+    · intro hbe hg
+      exact hb e hbe ((hR _ _).mp hg)
+    · intro hne
+      by_contra hnb
+      apply hne
+      apply (hR _ _).mpr
+      exact Relation.ReflTransGen.single ⟨⟨e, hnb, Or.inl ⟨rfl, rfl⟩⟩, trivial, trivial⟩
+
+end C07
+
+#print axioms C07.enc_iff_sized
+#print axioms C07.enc_iff_plain
+#print axioms C07.enc_iff_borders
